@@ -387,6 +387,8 @@ def data_mut_sites(b, include_getmut=False):
     cached = getattr(b, "_dm", None) if False else None
     out = []
     for i, t in b.calls():
+        if b.bbs[i]["cleanup"]:
+            continue
         f = t["f"]
         if SHARD_MAP_MUT.search(f):
             out.append((i, "map", f))
@@ -418,6 +420,8 @@ def payload_stores(b):
     (e.g. `*list = new_list`, `stored.value = ...`, `*bytes = ...`)"""
     out = []
     for i, bb in enumerate(b.bbs):
+        if bb["cleanup"]:
+            continue      # unwind twin of a store (the drop of the old value panicked)
         for st in bb["s"]:
             if st["k"] != "=":
                 continue
